@@ -318,7 +318,7 @@ func c10Exec(c *core.Ctx, cs c10Case) {
 	want := skel.Cmds(cmds0, skel.Strict) + fmt.Sprint(commentTextsOf(com0)) + c10Err(err0)
 	rs := []rune(src)
 	for k := 0; k <= len(rs); k++ {
-		inj := fmt.Errorf("injected read failure at rune %d", k)
+		inj := c10Inject(int(c.Index())+k, fmt.Sprintf("injected read failure at rune %d", k))
 		fs := &failingScanner{rs: rs, k: k, err: inj}
 		cmds, com, err := parser.ParseCommands(nil, "c10", fs)
 		c.Eval(1)
@@ -332,7 +332,7 @@ func c10Exec(c *core.Ctx, cs c10Case) {
 			c.Skip("reader fault inside a multi-byte character")
 			continue
 		}
-		inj := fmt.Errorf("injected read failure at byte %d", k)
+		inj := c10Inject(int(c.Index())+k+1, fmt.Sprintf("injected read failure at byte %d", k))
 		fr := &failingReader{b: b, k: k, err: inj}
 		cmds, com, err := parser.ParseCommands(nil, "c10", io.Reader(fr))
 		c.Eval(1)
@@ -342,6 +342,26 @@ func c10Exec(c *core.Ctx, cs c10Case) {
 	if c.Index()%307 == 0 {
 		c.Sample(map[string]any{"source": src, "fault_positions": len(rs) + len(b) + 2})
 	}
+}
+
+// eofLookalike prints like io.EOF and is not io.EOF.
+type eofLookalike struct{}
+
+func (eofLookalike) Error() string { return "EOF" }
+
+// c10Inject varies the kind of the injected failure: a plain error, errors
+// that wrap io.EOF / io.ErrUnexpectedEOF (only io.EOF itself means "end of
+// input" for an io.Reader) and one that merely prints as "EOF".
+func c10Inject(sel int, msg string) error {
+	switch sel % 4 {
+	case 1:
+		return fmt.Errorf("%s: %w", msg, io.EOF)
+	case 2:
+		return fmt.Errorf("%s: %w", msg, io.ErrUnexpectedEOF)
+	case 3:
+		return fmt.Errorf("%s: %w", msg, eofLookalike{})
+	}
+	return errors.New(msg)
 }
 
 func c10Err(err error) string {
